@@ -3,19 +3,19 @@
 # in the scratch worktree /tmp/mut/<prop>: (1) demo passes on the clean tree,
 # (2) patch applies and builds, (3) existing test suite passes with it,
 # (4) demo fails with it.  Leaves the worktree clean.  Result: /tmp/mut/verify/<prop>-<variant>.txt
-p=$1; v=$2
-wt=/tmp/mut/$p; src=/tmp/mut/out/$p/$v; out=/tmp/mut/verify/$p-$v.txt
-mkdir -p /tmp/mut/verify
+p=$1; v=$2; B=${MUT_BASE:-/tmp/mut}
+wt=$B/$p; src=$B/out/$p/$v; out=$B/verify/$p-$v.txt
+mkdir -p $B/verify
 exec > $out 2>&1
 cd $wt || exit 1
 git checkout -q -- . ; make -C src -j4 >/dev/null 2>&1
-g++ -std=c++17 -I$wt/src -I$wt $src/demo.cc $wt/src/.libs/libmeddly.a -lgmp -o /tmp/mut/verify/$p-$v.demo || { echo "RESULT demo does not compile"; exit 1; }
-timeout -s KILL 300 /tmp/mut/verify/$p-$v.demo >/dev/null 2>&1; clean_rc=$?
+g++ -std=c++17 -I$wt/src -I$wt $src/demo.cc $wt/src/.libs/libmeddly.a -lgmp -o $B/verify/$p-$v.demo || { echo "RESULT demo does not compile"; exit 1; }
+timeout -s KILL 300 $B/verify/$p-$v.demo >/dev/null 2>&1; clean_rc=$?
 echo "clean demo rc=$clean_rc"
 git apply $src/patch.diff || { echo "RESULT patch does not apply"; exit 1; }
 make -C src -j4 >/dev/null 2>&1 || { echo "RESULT patched tree does not build"; git checkout -q -- .; exit 1; }
-g++ -std=c++17 -I$wt/src -I$wt $src/demo.cc $wt/src/.libs/libmeddly.a -lgmp -o /tmp/mut/verify/$p-$v.demo
-timeout -s KILL 300 /tmp/mut/verify/$p-$v.demo >/dev/null 2>&1; mut_rc=$?
+g++ -std=c++17 -I$wt/src -I$wt $src/demo.cc $wt/src/.libs/libmeddly.a -lgmp -o $B/verify/$p-$v.demo
+timeout -s KILL 300 $B/verify/$p-$v.demo >/dev/null 2>&1; mut_rc=$?
 echo "mutated demo rc=$mut_rc"
 timeout -s KILL 3000 make -C tests -j4 -k check 2>&1 | grep -E "^(# (TOTAL|PASS|FAIL|ERROR)|FAIL|ERROR)"
 pass=$(grep -h "^# PASS" tests/test-suite.log 2>/dev/null | awk '{print $3}')
